@@ -234,8 +234,10 @@ def fasta_input_plain(f):
 @st.composite
 def cli_cases(draw):
     f = draw(gen.fasta_file(max_records=4, min_len=8, max_lines=8, exotic_headers=True))
+    # record names: plain, or with non-ASCII letters (UTF-8 in the file), or as real assemblers write them
+    style = draw(st.sampled_from(["ctg{}", "ctg{}", "ctg_\u00e9chantillon_{}", "\u03b1{}", "ptg00001{}l", "scaffold_{}|arrow", "h1tg00000{}l.1"]))
     for i, r in enumerate(f["records"]):
-        r[0] = f"ctg{i + 1}"
+        r[0] = style.format(i + 1)
     # keep terminal non-ACGT runs out (a scaffold must not start or end with a gap for the remapper)
     for r in f["records"]:
         s = r[2]
